@@ -35,6 +35,7 @@ type HarnessSpec struct {
 	AllowCuts  bool           `json:"allow_cuts"`
 	NoReplay   bool           `json:"no_replay"`
 	TimeoutSec int            `json:"timeout_s"`
+	Logic      string         `json:"logic"` // e.g. QF_UFBV: lets z3 pick its bit-vector tactics (only for harnesses without Int terms)
 }
 
 type Spec struct {
@@ -339,6 +340,7 @@ func (rc *runCtx) runSpec(specPath string, evPath string) int {
 		}
 		eng.maxSteps = pick(hs.MaxSteps, 3000000)
 		eng.maxBranches = pick(hs.MaxBranch, 600)
+		eng.logic = hs.Logic
 		eng.allMapOrders = hs.MapOrders
 		eng.ignoreGo = hs.IgnoreGo
 		eng.collisionFree = map[string]bool{}
